@@ -89,6 +89,13 @@ def structural_trees():
         {"p": "r/m2/x5", "k": "file", "c": ["base", 900, 1]},
         {"p": "r/a/y1", "k": "file", "c": ["base", 500, 2]}, {"p": "r/a/y2", "k": "file", "c": ["base", 500, 2]},
         {"p": "r/m2/z1", "k": "file", "c": ["base", 300, 3]}, {"p": "r/m2/z2", "k": "file", "c": ["base", 300, 3]}])
+    # one directory visible at two places (bind mount): the two paths of a file are ONE directory entry - not hard
+    # links of each other, although they share device and inode - so removing "one of them" removes the file
+    t["bind_mount"] = (["d1", "d2"], ["-H"], [
+        {"p": "d1/f", "k": "file", "c": lit("B")}, {"p": "d1/u", "k": "file", "c": lit("unique-b")},
+        {"p": "d2", "k": "bind", "to": "d1"}])
+    t["bind_mount_plain"] = (["d1", "d2"], [], t["bind_mount"][2])
+    t["bind_mount_copy"] = (["d1", "d2", "d3"], ["-H"], t["bind_mount"][2] + [{"p": "d3/g", "k": "file", "c": lit("B")}])
     # overlapping / repeated input paths given on standard input, every path counted separately (--match-links):
     # a file reached twice is still ONE path - it may not be reported as a duplicate of itself
     t["stdin_overlap"] = (["r1", "r1/d", "r1"], ["-H"], [
@@ -313,7 +320,7 @@ def evaluate(case):
     isolate = "--isolate" in case["gargs"]
     feat = {"op": case["op"], "report_format": case["fmt"], "isolate": isolate, "symbolic_links": symlinks,
             "victim_name_class": name_class(case["entries"][0]["p"].split("/", 1)[1]) if case["tree"].startswith("n:") else "plain"}
-    if case["tree"] in ("s:two_tmpfs", "s:cross_device"):
+    if case["tree"] in ("s:two_tmpfs", "s:cross_device", "s:bind_mount", "s:bind_mount_plain", "s:bind_mount_copy"):
         from . import c09
         if not c09.can_mount():
             return {"violations": [], "nontrivial": None, "outcome": "skipped_no_mount"}
